@@ -83,7 +83,10 @@ func (self *Lexer) skipLineComment() {
 		self.advance()
 	}
 
-	self.advance()
+	// skip the line break (at the end of the input there is none: the location must not move past the text)
+	if self.currentChar != nil {
+		self.advance()
+	}
 }
 
 func (self *Lexer) skipBlockComment() *errors.Error {
